@@ -87,34 +87,35 @@ type Sess struct {
 	Cov   *Cov
 	Rng   *Rng // only for monitor sampling, never for op choice
 
-	regs       map[int]*regEntry
-	open       int // queries held open by the harness
-	step       int
-	wseq       int
-	qcalls     int
-	lsn        ecs.Listener
-	rec        []RecEvent
-	recOn      bool
-	batchAff   map[ecs.Entity]*MEnt // expected after-state of entities affected by the running batch op
-	tr         uint64
-	trOps      []uint64
-	targets    map[ecs.Entity]bool // every non-zero target ever used
-	RecAll     [][]RecEvent
-	gfs        map[int]*gfState
-	kept       *keptDump
-	stale      []ecs.CachedFilter // handles of filters that were unregistered
-	replica    map[ecs.Entity]*replicaEnt
-	gmaps      map[string]gMap         // long-lived generic MapN mappers (C18)
-	gex        [2]*gexState            // long-lived generic Exchange objects (C18)
-	gsingles   map[string]*gSingle     // long-lived generic Map[T] mappers (C18)
-	builders   map[string]*ecs.Builder // long-lived builders, by configuration
-	dropped    int                     // generic filters registered and dropped (C13)
-	curOp      *Op                     // the operation being executed (for the listener)
-	resMappers map[string][]resAcc     // long-lived generic.Resource mappers (C20)
-	Res        *ResModel
-	ResIDs     []ecs.ResID
-	ResKeys    []string
-	keep       []any
+	regs        map[int]*regEntry
+	open        int // queries held open by the harness
+	step        int
+	wseq        int
+	qcalls      int
+	lsn         ecs.Listener
+	rec         []RecEvent
+	recOn       bool
+	batchAff    map[ecs.Entity]*MEnt // expected after-state of entities affected by the running batch op
+	tr          uint64
+	trOps       []uint64
+	targets     map[ecs.Entity]bool // every non-zero target ever used
+	RecAll      [][]RecEvent
+	gfs         map[int]*gfState
+	kept        *keptDump
+	stale       []ecs.CachedFilter // handles of filters that were unregistered
+	replica     map[ecs.Entity]*replicaEnt
+	gmaps       map[string]gMap         // long-lived generic MapN mappers (C18)
+	gex         [2]*gexState            // long-lived generic Exchange objects (C18)
+	gsingles    map[string]*gSingle     // long-lived generic Map[T] mappers (C18)
+	builders    map[string]*ecs.Builder // long-lived builders, by configuration
+	dropped     int                     // generic filters registered and dropped (C13)
+	curOp       *Op                     // the operation being executed (for the listener)
+	onQueryOpen func()                  // run once when the next batch call has returned its query, before it is consumed
+	resMappers  map[string][]resAcc     // long-lived generic.Resource mappers (C20)
+	Res         *ResModel
+	ResIDs      []ecs.ResID
+	ResKeys     []string
+	keep        []any
 }
 
 // NewSess creates a world per cfg with all its types registered.
@@ -290,6 +291,10 @@ func (s *Sess) newBuilder(op *Op) *ecs.Builder {
 // consume iterates a returned query per traversal mode.
 func (s *Sess) consume(q *ecs.Query, op *Op, out *Outcome, visit func(q *ecs.Query)) {
 	out.QCount = -1
+	if f := s.onQueryOpen; f != nil {
+		s.onQueryOpen = nil
+		f()
+	}
 	if op.Probe != "" {
 		s.probeQuery(q, op.Probe)
 	}
